@@ -139,9 +139,9 @@ def spec_prv_ckd_terms(k, cc, idx):
     Hn = U.hmac512(cc, data_n)
     IL = ite(hardened, Hh.slice(0, 32).be(), Hn.slice(0, 32).be())
     IRv = ite(hardened, Hh.slice(32, 64).be(), Hn.slice(32, 64).be())
-    ki = (IL + k) % N
+    from pyvc.logic import define, sink
+    ki = define("ki", (IL + k) % N)
     if is_sym(ki):
-        from pyvc.logic import sink
         sink().add(z3.And(ki >= 0, ki < N))
     return IL, seg(IRv, 32), ki
 
